@@ -45,3 +45,6 @@ func (s *Signaller) VerifSetView(params types.Params, feeds []types.FeedWithDevi
 func (s *Signaller) VerifRebind(fq FeedQuerier, b BothanClient, ch chan<- submitter.SignalPriceSubmission, pending *vsync.Map) {
 	s.feedQuerier, s.bothanClient, s.submitCh, s.pendingSignalIDs = fq, b, ch, pending
 }
+
+// VerifIsDeviated is the daemon's deviation predicate.
+var VerifIsDeviated = isDeviated
